@@ -1,11 +1,8 @@
 #!/bin/sh
 # Build the static Coq development from files on disk only (full .vo build, no -vos).
 set -e
+python3 /verif/tools/gate.py
 cd /verif/coq
-# gate: no admits, no axioms declared, no checks disabled
-if grep -rnE '\b(Admitted|admit|Axiom|Parameter|Conjecture|Hypothesis|Variable)\b|Unset Guard|bypass_check|type-in-type|impredicative-set' --include='*.v' Base Model Proofs Props | grep -vE '^\S+:\s*[0-9]+:\s*\(\*' | grep -vE 'Section|Context' ; then
-  echo "setup gate: forbidden token found" ; exit 1
-fi
 coq_makefile -f _CoqProject -o Makefile > /dev/null
 timeout 1800 make -j16
 echo "coq build ok"
